@@ -493,6 +493,12 @@ func (d *cfgDynamic) toConfig(opts *options) (cfg *Config, err error) {
 }
 
 func (d *cfgDynamic) withValue(err *error, opts *options, fn func(value)) {
+	// references registered while evaluating d are active only until d has
+	// been evaluated
+	parentFields := opts.activeFields
+	opts.activeFields = newFieldSet(parentFields)
+	defer func() { opts.activeFields = parentFields }()
+
 	var v value
 	if v, *err = d.getValue(opts); *err == nil {
 		fn(v)
